@@ -401,7 +401,14 @@ func run(r *mon.Run) {
 					case 4:
 						src = &segmentReader{b: mem, seg: 1460}
 					}
-					back, rerr = signedexchange.ReadExchange(src)
+					if (i/5)%3 == 2 {
+						// the exported two-step route: the prologue ends exactly where the payload starts in the caller's reader
+						if back, rerr = signedexchange.ReadExchangePrologue(src); rerr == nil {
+							back.Payload, rerr = io.ReadAll(src)
+						}
+					} else {
+						back, rerr = signedexchange.ReadExchange(src)
+					}
 					for k := range mem {
 						mem[k] = 0xCC // the caller reuses its buffer
 					}
